@@ -31,3 +31,12 @@ claim("C13",
       note="Permutation clauses are bounded in the number of labels (2,3) and complete in the label values; exp/log are uninterpreted with their inverse axioms; "
            "estimator protocol and numpy permutation are assumed contracts; closest=True path not verified.",
       technique="deductive verification: symbolic execution of the real table/lambdas and transformers against contracts, z3")
+claim("C01",
+      text="Proof over generic keys (parameter NAMES are arbitrary symbolic strings decided by the string solver): SkBase / SkBaseTransformLearner / "
+           "SkBaseTransformStacking (12 members: every one- and two-digit index) / ClassifierAfterKMeans: get_params is exactly own+nested keys; set_params returns "
+           "self, reports every given key, leaves every other advertised key unchanged, rebinds the bound method; set_params(**other.get_params(True)) makes both "
+           "report the same parameters; every exported BaseEstimator-derived constructor stores each parameter as an attribute, keeps given objects and is stable "
+           "under klass(**get_params()) (scikit-learn's clone check). Bounded: clone / round trip (incl. outputs) / one key at a time on 27 configured classes.",
+      note="Bounded in the number of keys per call (1-2 per family, 12 stacked members), unbounded in names/indices. Wrapped estimators obey the sklearn "
+           "get_params/set_params protocol (assumed). QuantileMLPRegressor constructor (super(Class, self) form) is covered by the bounded stand-in only.",
+      technique="deductive verification: symbolic execution with generic string keys against contracts, z3 string theory")
